@@ -33,6 +33,9 @@ type World struct {
 	specs   map[string]*specInfo
 	strLits map[string]string
 
+	appDecls      map[string]string
+	appOrder      []string
+
 	ContractFiles []string
 	Unresolved    []string // contract targets that could not be resolved (reported)
 }
@@ -103,7 +106,7 @@ func Load(repoDir, specDir string) (*World, error) {
 		p := w.Pkgs[path]
 		for _, f := range p.Syntax {
 			fname := fset.Position(f.Pos()).Filename
-			if filepath.Base(fname) != "zz_verif_contracts.go" {
+			if b := filepath.Base(fname); !strings.HasPrefix(b, "zz_verif_") || !strings.HasSuffix(b, ".go") {
 				continue
 			}
 			w.ContractFiles = append(w.ContractFiles, fname)
@@ -368,10 +371,11 @@ func (w *World) resolveContracts() {
 	// index all functions by key
 	byKey := map[string]*ssa.Function{}
 	for fn := range ssautil.AllFunctions(w.Prog) {
-		if fn.Origin() != nil && fn.Origin() != fn {
-			continue
+		o := fn
+		if fn.Origin() != nil {
+			o = fn.Origin()
 		}
-		byKey[FuncKey(fn)] = fn
+		byKey[FuncKey(o)] = o
 	}
 	for _, fc := range w.C.Funcs {
 		switch fc.Kind {
@@ -512,3 +516,29 @@ var _ = ast.Inspect
 
 // FnDisplay is the printable, stable name of a function.
 func FnDisplay(fn *ssa.Function) string { return fnDisplay(fn) }
+
+// AppFun declares (once) an uninterpreted function symbol modelling callback
+// application and returns its name.
+func (w *World) AppFun(kind string, argSorts []string, res Sort, idx int) string {
+	name := fmt.Sprintf("%s!%s", kind, sanitize(strings.Join(argSorts, "_")))
+	if kind == "app" {
+		name = fmt.Sprintf("app!%s!%d", sanitize(strings.Join(argSorts, "_")+"_"+string(res)), idx)
+	}
+	if w.appDecls == nil {
+		w.appDecls = map[string]string{}
+	}
+	if _, ok := w.appDecls[name]; !ok {
+		w.appDecls[name] = fmt.Sprintf("(declare-fun %s (%s) %s)", name, strings.Join(argSorts, " "), res)
+		w.appOrder = append(w.appOrder, name)
+	}
+	return name
+}
+
+func (w *World) appDeclLines() string {
+	var sb strings.Builder
+	for _, n := range w.appOrder {
+		sb.WriteString(w.appDecls[n])
+		sb.WriteByte('\n')
+	}
+	return sb.String()
+}
